@@ -171,4 +171,17 @@ theorem flatten_wn (f : Forest) : ∀ o, WN o (flatten o f) := by
     intro o
     cases o <;> simpa [flatten, execSteps] using ih _
 
+/-- conversely every well-nested list is the step list of a scenario forest: quantifying over forests loses
+    nothing -/
+theorem wn_is_forest {o : Option Act} {evs : List Ev} (h : WN o evs) : ∃ f : Forest, flatten o f = evs := by
+  induction h with
+  | nil o => exact ⟨.nil, by cases o <;> rfl⟩
+  | write a n rest _ ih =>
+    obtain ⟨f, hf⟩ := ih
+    exact ⟨.write n f, by simp [flatten, hf]⟩
+  | exec o b body rest _ _ ihb ihr =>
+    obtain ⟨fb, hb⟩ := ihb
+    obtain ⟨fr, hr⟩ := ihr
+    exact ⟨.exec b fb fr, by cases o <;> simp [flatten, hb, hr]⟩
+
 end DoitModel.Act
